@@ -84,9 +84,9 @@ CLAIMED = {
              "key schedule C15's; input side, 1-RTT: C02_short_packet_extracted (a packet protected per RFC 9001 5.3-5.4 by the sender of Spec/QuicPackets.v -- any first byte "
              "01xxxxxx, connection ID, 1..4 packet-number bytes, payload, AES or ChaCha20 mask -- is stripped of its header protection and its first byte, packet-number "
              "bytes, key phase and ciphertext are recovered exactly) and C02_one_rtt_datagram (handed to the session that holds the sender's keys, the datagram adds exactly "
-             "the data of its STREAM frames, in order, with its time and direction, to the session's output); Handshake packets: C02_handshake_packet_extracted (long header "
-             "with any connection IDs, Length varint of any width, followed by any coalesced packets: every field, packet-number bytes and ciphertext recovered, the rest "
-             "handed back). NOT proved: Initial and 0-RTT packets, "
+             "the data of its STREAM frames, in order, with its time and direction, to the session's output); Handshake and Initial packets: C02_handshake_packet_extracted, C02_initial_packet_extracted (long "
+             "header with any connection IDs, token, Length varint of any width, followed by any coalesced packets: every field, packet-number bytes and ciphertext "
+             "recovered, the rest handed back). NOT proved: 0-RTT packets, "
              "CID matching, Retry: "
              "decided by an independent RFC 9000/9001 reference sender run through the implementation over every dimension of the quantifier, with the executable session model "
              "tied to the implementation by byte-exact output correspondence. One open finding (0-RTT with another suite offered first).",
